@@ -40,7 +40,7 @@ def info(tier):
         "convex NLP problem (solve); prefix = k in %s colliding models (the last ones always M's own recipe with other data, bounds, parameter values or symmetric flags; in half of the pairs all data arrays of the process live in shared buffers rewritten in place); M observed after the prefix, and in the order M, prefix, M "
         "again; compared with a fresh-process twin (1e-12 for evaluation-type observations, 1e-9 for solves) and the reference "
         "interpreter; distinct = canonical (M, k) hashes" % KS[tier],
-        "required_cells": [f"k:{k}" for k in KS[tier]] + ["M:expression", "M:directed-family-sweep", "M:expression-with-parameters", "M:lp", "M:nlp", "order:prefix-then-M",
+        "required_cells": [f"k:{k}" for k in KS[tier]] + ["M:expression", "M:directed-family-sweep", "M:deep-copy-of-a-compiled-model", "M:expression-with-parameters", "M:lp", "M:nlp", "order:prefix-then-M",
                                                           "order:M-prefix-M", "collision:same-names-other-bounds", "collision:same-parameter-names-other-values",
                                                           "collision:rebuilt-identical", "collision:bare-leaves", "collision:shifted-positions",
                                                           "collision:same-recipe-other-data-or-structure", "buffers:shared-in-place", "buffers:fresh-arrays"],
@@ -128,7 +128,10 @@ def run_perturbed_twin(Mrec, j, pool, rec, what):
         P = b.problem(prob2)
         with warnings.catch_warnings():
             warnings.simplefilter("ignore")
-            P.solve(method=Mrec["method"])
+            kw_ = {} if Mrec["method"] in ("linprog", "highs", "highs-ds", "highs-ipm") or j % 2 else {"maxiter": 2}
+            if "lp" in Mrec.get("kind", ""):
+                kw_ = {}
+            P.solve(method=Mrec["method"], **kw_)
     rec.cells["collision:same-recipe-other-data-or-structure"] += 1
 
 
@@ -261,7 +264,8 @@ def collide(rng, decls, k, rec, Vnames=None, Mrec=None, pool=None):
                 P = optyx.Problem().minimize(e)
                 with warnings.catch_warnings():
                     warnings.simplefilter("ignore")
-                    P.solve()
+                    # some earlier models are solved with their own keyword options (a cheap probe with maxiter / tol)
+                    P.solve(**([{}, {"maxiter": 2}, {"tol": 1e-2, "maxiter": 3}][(j // 50) % 3]))
             if j % 97 == 0:
                 lin = v0 * 3.0 + svars[(j + 1) % len(svars)] + 2.0
                 P = optyx.Problem().minimize(lin).subject_to(v0 >= -1).subject_to(svars[(j + 1) % len(svars)] >= 0.5)
@@ -375,6 +379,27 @@ def run_expr_pair(rec, rng, twin, k, order, with_params, directed=None):
     if "error" in want:
         rec.events["twin-error:" + want["error"][:30]] += 1
         return
+    if with_params and rng.random() < 0.5:
+        # M obtained as a deep copy of an already compiled model with other parameter values, then set() to M's values
+        try:
+            import copy as _copy
+
+            d2 = perturb_decls(case["decls"], k, 2)
+            b2 = B.Builder(d2)
+            e2 = b2.S(case["node"])
+            V2 = b2.variables(case["V"])
+            xpt = np.array([case["points"][0][n] for n in case["V"]], dtype=float)
+            reobserve_same_objects((b2, e2, V2, xpt))  # the template has been through every cache
+            e3, V3, P3 = _copy.deepcopy((e2, V2, b2.params))
+            Dm = R.Decls(case["decls"])
+            for pn, pv in Dm.param_values().items():
+                if pn in P3:
+                    P3[pn].set(pv)
+            got3 = reobserve_same_objects((None, e3, V3, xpt))
+            rec.cmp(1, "M:deep-copy-of-a-compiled-model")
+            compare_obs(rec, got3, {kk: want[kk] for kk in got3 if kk in want}, show, "M as a deep copy of a compiled model, parameters set afterwards", k, case)
+        except Exception as ex:
+            rec.events["deepcopy-mode-raised:" + type(ex).__name__] += 1
     state = None
     before = cache_infos()
     pool = POOL if rng.random() < 0.5 else None
@@ -458,7 +483,7 @@ def run_problem_pair(rec, rng, twin, k, order, kind):
         if order == "M-prefix-M":
             first, (P0,) = solve_here()
             check_solve(rec, first, want, show, "first solve of M", prob)
-        collide(rng, prob["decls"], k, rec, Mrec={"prob": prob, "method": method}, pool=pool)
+        collide(rng, prob["decls"], k, rec, Mrec={"prob": prob, "method": method, "kind": kind}, pool=pool)
         got, _ = solve_here()
     except Exception as ex:
         rec.violation("solve-raises-after-prefix:" + type(ex).__name__, {"prob": prob, "show": show, "error": repr(ex)[:300]})
